@@ -79,6 +79,8 @@ type coreH struct {
 	owner    sdk.AccAddress
 	fails    map[[2]uint64]bool
 	gov      string
+	// lastImport: what the last `reimport` op found ("" = nothing)
+	lastImport string
 }
 
 func coreActorName(i int) string {
@@ -132,7 +134,12 @@ func newCoreH(t *testing.T, p coreParams) *coreH {
 	sp.DishonorLiveness = p.DL
 	sp.DishonorKickThreshold = p.Kick
 	h.f.App.SequencerKeeper.SetParams(h.f.Ctx, sp)
-	// failure injection seam: wrap the production finalization step
+	h.installSeam()
+	return h
+}
+
+// installSeam wraps the production finalization step with the injected-failure oracle.
+func (h *coreH) installSeam() {
 	k := h.f.App.RollappKeeper
 	k.SetFinalizePendingFn(func(ctx sdk.Context, idx rollapptypes.StateInfoIndex) error {
 		if ri, ok := h.raIdx[idx.RollappId]; ok && h.fails[[2]uint64{uint64(ri), idx.Index}] {
@@ -140,7 +147,20 @@ func newCoreH(t *testing.T, p coreParams) *coreH {
 		}
 		return k.VerifFinalizePendingState(ctx, idx)
 	})
-	return h
+}
+
+// onApp returns a copy of the harness bound to another application instance (same actors, rollapp
+// names and parameters) — used by the genesis export / import check.
+func (h *coreH) onApp(f *Fix) *coreH {
+	c := *h
+	c.f = f
+	c.fails = map[[2]uint64]bool{}
+	c.created = map[int]bool{}
+	for k, v := range h.created {
+		c.created[k] = v
+	}
+	c.installSeam()
+	return &c
 }
 
 func (h *coreH) actor(tok string) (int, sdk.AccAddress) {
@@ -383,6 +403,37 @@ func (h *coreH) exec(line string) string {
 		}
 		_, err := h.f.Deliver(&rollapptypes.MsgMarkObsoleteRollapps{Authority: auth, DrsVersions: vs})
 		return okErr(err)
+	case "reimport":
+		// C18: export the whole application state, initialise a fresh application from it with the
+		// production InitChainer, compare, and continue on the imported chain
+		f2, exp1, exp2, err := h.f.ImportedCopy()
+		if err != nil {
+			h.lastImport = "import-failed: " + err.Error()
+			return "import-failed"
+		}
+		h.lastImport = ""
+		var mods []string
+		for mn := range exp1 {
+			mods = append(mods, mn)
+		}
+		sort.Strings(mods)
+		for _, mn := range mods {
+			if !c18Modules[mn] {
+				continue // third-party modules (e.g. osmosis x/epochs re-stamps current_epoch_start_height at import) are outside C18's list
+			}
+			if d := firstJSONDiff(exp1[mn], exp2[mn]); d != "" {
+				h.lastImport += "reexport " + mn + d + "; "
+			}
+		}
+		if m1, m2 := h.f.Invariants(), f2.Invariants(); m1 == "" && m2 != "" {
+			h.lastImport += "invariant " + m2 + "; "
+		}
+		if !h.f.App.BankKeeper.GetSupply(h.f.Ctx, coreDenom).Amount.Equal(f2.App.BankKeeper.GetSupply(f2.Ctx, coreDenom).Amount) {
+			h.lastImport += "supply differs; "
+		}
+		h.f = f2
+		h.installSeam()
+		return "ok"
 	case "begin":
 		err := h.f.Begin(time.Duration(atoi(m["dt"])))
 		if err != nil {
@@ -680,3 +731,7 @@ func (s *coreSnap) render(res string) string {
 }
 
 var _ = rollappkeeper.Keeper{}
+
+// c18Modules: the custom modules whose genesis C18 is about (its anchor list) plus bank.
+var c18Modules = map[string]bool{"rollapp": true, "sequencer": true, "delayedack": true, "eibc": true, "dymns": true,
+	"lightclient": true, "iro": true, "lockup": true, "incentives": true, "streamer": true, "sponsorship": true, "bank": true}
